@@ -138,6 +138,24 @@ def fixed_scenarios(run):
                         "scenario:lazy-sibling:" + out)
     else:
         run.oracle_ok("walk-ext")
+    # auto_batch_size_ is refused by a lazily stacked nested tensordict after the other nested tensordicts were cut:
+    # nothing must have changed (former known finding C01-auto-batch-size-lazy-child)
+    import torch as _t
+    m = TensorDict({"p": _t.zeros(2, 3, 2)}, [2, 3])
+    td = TensorDict({"c": TensorDict({}, [2, 3, 3])}, [2, 3])
+    td.set("lazy", LazyStackedTensorDict.lazy_stack([m.clone(), m.clone()], 2))
+    out = "ok"
+    try:
+        td.auto_batch_size_(1)
+    except Exception as e:  # noqa
+        out = "raised:" + O.cls_of(e)
+    viol = O.walk_coherent(td)
+    run.count("ops.extended", "scenario:auto-lazy")
+    if viol:
+        run.oracle_fail("walk-ext", {"scenario": "auto-lazy", "call": "td.auto_batch_size_(1)"}, f"({out}): " + "; ".join(viol[:3]),
+                        "scenario:auto-lazy:" + out)
+    else:
+        run.oracle_ok("walk-ext")
 
 
 def run_extended(run, rng):
